@@ -748,7 +748,9 @@ func (ts *TunnelSet) checkDrained() {
 	// every endpoint has closed or failed; records whose far side vanished with a
 	// link are reclaimed by the idle timeout (60 s here) at the latest
 	ts.m.WaitConnected(5 * time.Minute)
-	simrt.Sleep(4 * time.Minute)
+	// (a file-transfer open that could not be sent keeps its pending request
+	// until the 5-minute open timeout)
+	simrt.Sleep(6 * time.Minute)
 	for _, nd := range ts.m.Nodes {
 		if !nd.Running {
 			continue
